@@ -19,7 +19,7 @@ Section HeapProofs.
   Variable zero : T.
   Variable grow : nat -> nat -> nat.
   Variable eqb : T -> T -> bool.
-  Variable cmp : T -> T -> Z.
+  Variable cmp : nat -> T -> T -> Z.
   Variable draw : nat -> nat.
   Hypothesis grow_ok : forall c n, n <= grow c n.
 
@@ -404,7 +404,7 @@ Section HeapProofs.
     pose proof (rd_length _ _ Hwf) as Hlen. rewrite Hrd in Hlen.
     pose proof (wf_arr_lt _ _ Hwf) as Halt.
     destruct (vk s) eqn:Ek.
-    1,2: rewrite add_plan_linear in Hp by congruence;
+    1,2: rewrite add_plan_linear in Hp by exact I;
          destruct (memb T eqb (vm s) v); inversion Hp; subst pos;
          destruct (sl_append_spec (arrs h) (omem o) [v] Hwf) as (st' & m' & Ha & Hf & Hw' & Harr & Hr' & _);
          rewrite Ha; simpl;
